@@ -66,6 +66,8 @@ def rules(ctx):
     from .C07 import unserved_is_a_sum
     tour_cache_rules(ctx)
     cycle_update_rules(ctx)
+    from . import order
+    order.pair_order(ctx, "R5")
     unserved_is_a_sum(ctx, "R1")
     s_sites = common.sites_of(ctx, SCHEDULE)
     common.lost_update_rule(ctx, "R5", SCHEDULE, s_sites)
